@@ -344,62 +344,26 @@ func genMergeConfig(repo string) (string, error) {
 		}
 	}
 
-	// ReadConfigPaths: the accumulator discipline.
+	// ReadConfigPaths and DecodeConfig: see readconfig.go.
 	rd := findFunc(f, "", "ReadConfigPaths")
 	if rd == nil {
 		return "", fmt.Errorf("ReadConfigPaths not found")
 	}
-	var init string
-	var updates, decodes, suffixes, sorts, returns []string
-	var bad error
-	ast.Inspect(rd.Body, func(n ast.Node) bool {
-		switch x := n.(type) {
-		case *ast.AssignStmt:
-			for i, l := range x.Lhs {
-				if isIdent(l, "result") {
-					if len(x.Lhs) != 1 || len(x.Rhs) != 1 {
-						bad = fmt.Errorf("ReadConfigPaths: multi-assignment to result")
-						return false
-					}
-					if x.Tok == token.DEFINE {
-						if init != "" {
-							bad = fmt.Errorf("ReadConfigPaths: result defined twice")
-						}
-						init = exprString(x.Rhs[0])
-					} else {
-						updates = append(updates, exprString(x.Rhs[0]))
-					}
-				}
-				if isIdent(l, "config") && i == 0 && len(x.Rhs) == 1 {
-					decodes = append(decodes, exprString(x.Rhs[0]))
-				}
-			}
-		case *ast.CallExpr:
-			switch exprString(x.Fun) {
-			case "strings.HasSuffix":
-				suffixes = append(suffixes, exprString(x))
-			case "sort.Sort":
-				sorts = append(sorts, exprString(x))
-			}
-		case *ast.ReturnStmt:
-			var rs []string
-			for _, r := range x.Results {
-				rs = append(rs, exprString(r))
-			}
-			if len(rs) == 2 && rs[1] == "nil" {
-				returns = append(returns, rs[0])
-			}
-		}
-		return true
-	})
-	if bad != nil {
-		return "", bad
+	if sig := exprString(rd.Type); sig != "func(paths []string) (*Config, error)" {
+		return "", fmt.Errorf("ReadConfigPaths signature %s", sig)
 	}
-	less := findFunc(f, "dirEnts", "Less")
-	if less == nil || len(less.Body.List) != 1 {
-		return "", fmt.Errorf("dirEnts.Less not found or not a single statement")
+	rtoks, err := readTokens(rd.Body.List)
+	if err != nil {
+		return "", err
 	}
-	lessS := exprString(less.Body.List[0])
+	rshape, err := readShape(f, rtoks)
+	if err != nil {
+		return "", err
+	}
+	dtoks, dpairs, err := decodeSteps(f)
+	if err != nil {
+		return "", err
+	}
 
 	var b strings.Builder
 	b.WriteString("-- GENERATED by /verif/extract from /repo/cmd/serf/command/agent/config.go — do not edit.\n")
@@ -421,14 +385,20 @@ func genMergeConfig(repo string) (string, error) {
 		}
 		return "[" + strings.Join(o, ", ") + "]"
 	}
-	b.WriteString("/-- `ReadConfigPaths`: how the accumulator `result` is initialised and updated, where the\nmerged-in configuration comes from, which directory entries are read, and the order. -/\n")
-	fmt.Fprintf(&b, "def readInit : String := %q\n", init)
-	fmt.Fprintf(&b, "def readUpdates : List String := %s\n", q(updates))
-	fmt.Fprintf(&b, "def readDecodes : List String := %s\n", q(decodes))
-	fmt.Fprintf(&b, "def readSuffix : List String := %s\n", q(suffixes))
-	fmt.Fprintf(&b, "def readSort : List String := %s\n", q(sorts))
-	fmt.Fprintf(&b, "def readLess : String := %q\n", lessS)
-	fmt.Fprintf(&b, "def readReturns : List String := %s\n", q(returns))
+	b.WriteString("/-- `ReadConfigPaths`, statement by statement (one token per statement, `x[ … ]` = a nested block):\nthe exact sequence is pinned by `C31_read_shape`. -/\n")
+	fmt.Fprintf(&b, "def readTokens : List String := %s\n\n", q(rtoks))
+	b.WriteString("/-- the variation points of that body that `readPathsS` interprets -/\n")
+	fmt.Fprintf(&b, "def readShape : ReadShape :=\n  %s\n\n", rshape)
+	b.WriteString("/-- `DecodeConfig`, statement by statement, and its (raw string, duration) post-processing pairs in order -/\n")
+	fmt.Fprintf(&b, "def decodeTokens : List String := %s\n", q(dtoks))
+	b.WriteString("def durationPairs : List (String × String) := [")
+	for i, p := range dpairs {
+		if i > 0 {
+			b.WriteString(", ")
+		}
+		fmt.Fprintf(&b, "(%q, %q)", p[0], p[1])
+	}
+	b.WriteString("]\n")
 	b.WriteString("\nend SerfModel.Gen.MergeConfig\n")
 	return b.String(), nil
 }
